@@ -27,7 +27,11 @@ impl Poly {
     #[verifier::external_body] pub fn clone(&self) -> (r: Poly) ensures r.coeffs@ == self.coeffs@ { unimplemented!() }
 }
 // Euclidean division `&p / &d` (ark-poly divide_with_q_and_r, quotient only):  p = q*d + r with r = 0 or deg r < deg d.
-// Stated through evaluations; for a monic linear divisor d = X - z the remainder is the constant p(z).
+// Stated through evaluations; for a monic linear divisor d = X - z the remainder is the constant p(z).  A dividend shorter than the
+// divisor gives the zero quotient (`self.degree() < divisor.degree()` branch).
+pub open spec fn euclid(p: &Poly, d: &Poly, q: &Poly, r: Seq<FS>) -> bool {
+    r.len() < d.coeffs@.len() && forall|x: FS| p.ev(x) == f_add(f_mul(#[trigger] q.ev(x), d.ev(x)), peval(r, x, r.len()))
+}
 pub open spec fn is_linear_monic(d: &Poly) -> bool { d.coeffs@.len() == 2 && d.coeffs@[1]@ == f_one() }
 pub open spec fn lin_root(d: &Poly) -> FS { f_neg(d.coeffs@[0]@) }   // d = X - lin_root(d)
 impl vstd::std_specs::ops::DivSpecImpl<&Poly> for &Poly {
@@ -38,6 +42,8 @@ impl vstd::std_specs::ops::DivSpecImpl<&Poly> for &Poly {
 impl Div<&Poly> for &Poly { type Output = Poly; #[verifier::external_body] fn div(self, rhs: &Poly) -> (q: Poly)
     ensures q.wf(), q.coeffs@.len() + 1 <= self.coeffs@.len() || q.coeffs@.len() == 0,
             is_linear_monic(rhs) ==> forall|x: FS| self.ev(x) == f_add(f_mul(#[trigger] q.ev(x), f_sub(x, lin_root(rhs))), self.ev(lin_root(rhs))),
+            (self.wf() && rhs.wf()) ==> exists|r: Seq<FS>| #[trigger] euclid(self, rhs, &q, r),
+            (self.wf() && rhs.wf() && self.coeffs@.len() < rhs.coeffs@.len()) ==> q.coeffs@.len() == 0,
     { unimplemented!() } }
 impl vstd::std_specs::ops::DivSpecImpl<Poly> for &Poly {
     open spec fn obeys_div_spec() -> bool { false }
@@ -47,6 +53,8 @@ impl vstd::std_specs::ops::DivSpecImpl<Poly> for &Poly {
 impl Div<Poly> for &Poly { type Output = Poly; #[verifier::external_body] fn div(self, rhs: Poly) -> (q: Poly)
     ensures q.wf(), q.coeffs@.len() + 1 <= self.coeffs@.len() || q.coeffs@.len() == 0,
             is_linear_monic(&rhs) ==> forall|x: FS| self.ev(x) == f_add(f_mul(#[trigger] q.ev(x), f_sub(x, lin_root(&rhs))), self.ev(lin_root(&rhs))),
+            (self.wf() && rhs.wf()) ==> exists|r: Seq<FS>| #[trigger] euclid(self, &rhs, &q, r),
+            (self.wf() && rhs.wf() && self.coeffs@.len() < rhs.coeffs@.len()) ==> q.coeffs@.len() == 0,
     { unimplemented!() } }
 impl vstd::std_specs::ops::DivSpecImpl<&Poly> for Poly {
     open spec fn obeys_div_spec() -> bool { false }
@@ -56,6 +64,8 @@ impl vstd::std_specs::ops::DivSpecImpl<&Poly> for Poly {
 impl Div<&Poly> for Poly { type Output = Poly; #[verifier::external_body] fn div(self, rhs: &Poly) -> (q: Poly)
     ensures q.wf(), q.coeffs@.len() + 1 <= self.coeffs@.len() || q.coeffs@.len() == 0,
             is_linear_monic(rhs) ==> forall|x: FS| self.ev(x) == f_add(f_mul(#[trigger] q.ev(x), f_sub(x, lin_root(rhs))), self.ev(lin_root(rhs))),
+            (self.wf() && rhs.wf()) ==> exists|r: Seq<FS>| #[trigger] euclid(&self, rhs, &q, r),
+            (self.wf() && rhs.wf() && self.coeffs@.len() < rhs.coeffs@.len()) ==> q.coeffs@.len() == 0,
     { unimplemented!() } }
 impl vstd::std_specs::ops::DivSpecImpl<Poly> for Poly {
     open spec fn obeys_div_spec() -> bool { false }
@@ -65,6 +75,8 @@ impl vstd::std_specs::ops::DivSpecImpl<Poly> for Poly {
 impl Div<Poly> for Poly { type Output = Poly; #[verifier::external_body] fn div(self, rhs: Poly) -> (q: Poly)
     ensures q.wf(), q.coeffs@.len() + 1 <= self.coeffs@.len() || q.coeffs@.len() == 0,
             is_linear_monic(&rhs) ==> forall|x: FS| self.ev(x) == f_add(f_mul(#[trigger] q.ev(x), f_sub(x, lin_root(&rhs))), self.ev(lin_root(&rhs))),
+            (self.wf() && rhs.wf()) ==> exists|r: Seq<FS>| #[trigger] euclid(&self, &rhs, &q, r),
+            (self.wf() && rhs.wf() && self.coeffs@.len() < rhs.coeffs@.len()) ==> q.coeffs@.len() == 0,
     { unimplemented!() } }
 // p += (f, &q)  and  p += &q   (ark-poly AddAssign impls): pointwise linear
 impl vstd::std_specs::ops::AddAssignSpecImpl<(Fr, &Poly)> for Poly {
